@@ -230,10 +230,13 @@ func (r *Run) Finish() error {
 		Descs []string `json:"descs"`
 	}
 	var shards []shard
-	for start, k := 0, 0; start < len(r.caseExprs); start, k = start+r.perShard, k+1 {
-		end := start + r.perShard
-		if end > len(r.caseExprs) {
-			end = len(r.caseExprs)
+	// a shard ends after perShard cases or ~maxBytes of term text, whichever comes first
+	const maxBytes = 160 << 10
+	for start, k := 0, 0; start < len(r.caseExprs); k++ {
+		end, size := start, 0
+		for end < len(r.caseExprs) && end-start < r.perShard && (end == start || size+len(r.caseExprs[end]) <= maxBytes) {
+			size += len(r.caseExprs[end])
+			end++
 		}
 		w := NewCoqWriter()
 		for _, m := range r.imports {
@@ -259,6 +262,7 @@ func (r *Run) Finish() error {
 			return err
 		}
 		shards = append(shards, shard{name, r.caseDescs[start:end]})
+		start = end
 	}
 	keys := make([]string, 0, len(r.Hist))
 	for k := range r.Hist {
